@@ -1433,13 +1433,18 @@ def run(ctx):
     ctx.rule = ("request heads from a grammar (75% valid) with single-byte corruptions, every single-byte "
                 "corruption of 5 base requests, limit cases; chunked streams with all segmentations of short "
                 "ones; end-to-end: pipelines of 1-6 well-formed / broken messages (+ sentinel) against the real "
-                "server under 7-10 configurations, each under one-segment / bytewise / random / CR|LF / boundary "
-                "segmentations, single-byte corruption sweep of two base pipelines; distinct = (stream, "
+                "server under 9-14 configurations (parse options, request streaming, limits, error handlers), each "
+                "under one-segment / bytewise / random / CR|LF / boundary segmentations, single-byte corruption sweep of "
+                "two base pipelines, cross product body owner x method x framing, read-buffer alignment sweep (every "
+                "byte boundary of a message on the 8191-byte buffer boundary of a burst), trailer sections beyond "
+                "max-request-field-size; chunked streams also with one read buffer per segment; distinct = (stream, "
                 "parseopts or configuration, segmentation, status/framing/version/keep-alive or response-sequence "
                 "class) tuples")
     ctx.assumptions += ["IPv6-literal Host values under host-normalize are skipped (inet_pton not modelled)",
-                        "trailer sections longer than max-request-field-size are excluded (the C discards "
-                        "per read buffer there, with keep-alive off)",
+                        "trailer sections longer than max-request-field-size: the C decides per read buffer (overflow "
+                        "with keep-alive off only if the terminator is not in the buffer it examines); in-process they "
+                        "are exercised where the data ends exactly at the limit, end-to-end with the model's close as "
+                        "one admissible outcome and the oracle judging what follows",
                         "e2e tolerances: a head beginning with a byte < 0x20 may be answered 400 or with the "
                         "parser's status (depends on how much of the head is buffered; both reject + close); "
                         "mod_cgi answers 411 + close to a chunked body under server.stream-request-body 1/2 unless "
